@@ -30,6 +30,11 @@ structure TySem (τ : Type) where
 
 def modelSem : TySem Ty := { accepts := validate, isEmpty := fun t => match t with | .empty => true | _ => false }
 
+/-- a union of types: accepted iff a member accepts; "empty" only as the single member -/
+def unionSem {τ : Type} (sem : TySem τ) : TySem (List τ) :=
+  { accepts := fun ts v => ts.any fun t => sem.accepts t v,
+    isEmpty := fun ts => match ts with | [t] => sem.isEmpty t | _ => false }
+
 variable {τ : Type}
 
 def SN.name : SN τ → Tok
